@@ -148,7 +148,13 @@ def run(chk):
                 chk.dist("%s.%s" % (kind, name))
                 try:
                     with np.errstate(all="ignore"):
-                        p, q = f(x), f(y)
+                        p = f(x)
+                except Exception as e:
+                    chk.dist("estimator-raised-on-original:" + type(e).__name__)    # sample outside the estimator's domain
+                    continue
+                try:
+                    with np.errstate(all="ignore"):
+                        q = f(y)
                 except Exception as e:
                     chk.dist("estimator-raised:" + type(e).__name__)
                     if only is not None or a < 1e-3:
